@@ -134,15 +134,22 @@ def run(ctx):
     keys2 = strings(A, 2)
     q3 = strings(A, 3)
     kcases.append(([], q3))
+    q2 = strings(A, 2)
     for k in range(1, 3):
         for t in itertools.product(keys2, repeat=k):
-            kcases.append((list(t), q3))
+            if k == 1 or ctx.tier == "thorough":
+                kcases.append((list(t), q3))
+            else:   # all queries of length <= 2, and every extension of a key by one or two symbols up to length 3
+                ext = sorted(set(kk + bytes(e) for kk in t for n in (1, 2) for e in itertools.product(A, repeat=n) if len(kk) + n == 3))
+                kcases.append((list(t), q2 + ext))
     A3 = [0x61, 0x62, 0x71]
     keys3 = strings(A3, 2)
     q3b = strings(A3, 3)
     for t in itertools.product(keys3, repeat=3):
-        if ctx.tier == "thorough" or rng.chance(1, 3):
+        if ctx.tier == "thorough":
             kcases.append((list(t), q3b))
+        elif rng.chance(1, 4):
+            kcases.append((list(t), strings(A3, 2) + sorted(set(kk + bytes([e]) for kk in t for e in A3 if len(kk) == 2))))
     n_exh_k = len(kcases)
     alpha_r = [0x00, 0x0f, 0x10, 0x61, 0x62, 0x6f, 0x71, 0x7a, 0xf0, 0xff]
     for _ in range(ctx.budget(600, 30000)):
@@ -168,7 +175,7 @@ def run(ctx):
     ctx.rule = ("toposort: every digraph on <= %d nodes (children in increasing order) x every root list of length <= 2 (<= 1 for 4 nodes), every "
                 "3-node digraph with children in any order from root 0, the repository's test graphs, and random graphs of up to 12 nodes "
                 "(acyclic, acyclic + one back edge, arbitrary; duplicate children, children outside the list); trie: every sequence of <= 2 "
-                "insertions of keys of length <= 2 over {a,b,q,0xff} with all queries of length <= 3, sampled sequences of 3 keys over {a,b,q}, "
+                "insertions of keys of length <= 2 over {a,b,q,0xff} with all queries of length <= 2 and all extensions of the keys to length 3 (thorough: all queries of length <= 3), sampled sequences of 3 keys over {a,b,q}, "
                 "random key sets with queries derived from the keys, and key sets with more than 255 nodes; distinct = distinct input; "
                 "non-trivial = graph with at least one edge / at least one key" % nmax)
 
@@ -263,4 +270,4 @@ def run(ctx):
         ctx.corr_break("trie", {"mode": "trie", "keys": i["keys"], "queries": i["queries"][:8]}, {"observed_first": o["res"][:8]})
     ctx.exhaustive = True
     ctx.extra["exhaustive_part"] = ("all digraphs on <= %d nodes x root lists; all sequences of <= 2 keys of length <= 2 over 4 symbols x all "
-                                    "queries of length <= 3" % nmax)
+                                    "queries of length <= 2 (+ key extensions; thorough: <= 3)" % nmax)
